@@ -565,6 +565,23 @@ def m_bool_then_some(px, st, fr, ev):
     ]
 
 
+@model("std::ops::FnOnce::call_once", "std::ops::FnMut::call_mut", "std::ops::Fn::call",
+       reason="calling a closure / fn item value: its own MIR is expanded on the given arguments")
+def m_call_closure(px, st, fr, ev):
+    f = deref_val(px, st, ev["args"][0], depth=2)
+    tup = ev["args"][1] if len(ev["args"]) > 1 else None
+    if is_agg(tup) and tup[1] == "tuple":
+        args = [v for _, v in tup[4]]
+    elif tup is None or tup == UNIT:
+        args = []
+    else:
+        return None
+    frag = _inl(px, f, args, None, ev)
+    if frag is None:
+        return None
+    return [frag]
+
+
 @model("std::ops::Try::branch", reason="`?`: Ok/Some -> Continue(payload); Err/None -> Break(residual)")
 def m_try_branch(px, st, fr, ev):
     t = ev["args"][0]
